@@ -20,10 +20,15 @@ type DFSArg struct {
 	Shard   int    `json:"shard"`
 	Dup     bool   `json:"dup"`
 	SD      int    `json:"sd"` // shard depth (default 2)
+	Restart bool   `json:"restart"` // also offer restart + Load(-1) of every replica
 }
 
 func (a DFSArg) Name() string {
-	return fmt.Sprintf("%s/w%d/d%d/%s/shard%d.%d", a.Kind, a.Writers, a.Depth, a.Alpha, a.Shard, a.Shards)
+	r := ""
+	if a.Restart {
+		r = "+restart"
+	}
+	return fmt.Sprintf("%s/w%d/d%d/%s%s/shard%d.%d", a.Kind, a.Writers, a.Depth, a.Alpha, r, a.Shard, a.Shards)
 }
 
 func shardUnits(base DFSArg, shards int) []explore.Unit {
@@ -145,7 +150,7 @@ func runWritersDFS(c *explore.Ctx, prop string, ops func(a DFSArg) []WOp, setup 
 		sd = a.Depth
 	}
 	d := &explore.DFS{
-		Scenario: a.Name(), Space: fmt.Sprintf("%s/w%d/%s", a.Kind, a.Writers, a.Alpha),
+		Scenario: a.Name(), Space: fmt.Sprintf("%s/w%d/%s/restart=%v", a.Kind, a.Writers, a.Alpha, a.Restart),
 		New: func() (explore.World, error) {
 			w, err := NewWriters(a.Kind, a.Writers, ops(a))
 			if err != nil {
@@ -153,6 +158,7 @@ func runWritersDFS(c *explore.Ctx, prop string, ops func(a DFSArg) []WOp, setup 
 			}
 			w.Mem = mem
 			w.Dup = a.Dup
+			w.Reload = a.Restart
 			setup(w, a)
 			return w, nil
 		},
@@ -170,25 +176,27 @@ func runWritersDFS(c *explore.Ctx, prop string, ops func(a DFSArg) []WOp, setup 
 func init() {
 	explore.Register(&explore.CheckDef{
 		ID: "C06", Level: "model_checking",
-		Rule: "explicit-state DFS (replay on fresh real instances, visited-state pruning) over all sequences of Put/Delete by each writer and merge(i<-j) actions up to the depth bound; oracle after every step on every replica: Get/All == last-writer-wins replay of OpLog().Values(), and Values() lists every entry after its ancestors. Non-trivial = distinct states in which some replica holds entries of two writers.",
+		Rule: "explicit-state DFS (replay on fresh real instances, visited-state pruning) over all sequences of Put/Delete by each writer and merge(i<-j) actions (one unit also offers restart + Load of any replica) up to the depth bound; oracle after every step on every replica: Get/All == last-writer-wins replay of OpLog().Values(), and Values() lists every entry after its ancestors. Non-trivial = distinct states in which some replica holds entries of two writers.",
 		Units: func(tier string) []explore.Unit {
 			if tier == "thorough" {
 				u := shardUnits(DFSArg{Kind: "keyvalue", Writers: 2, Depth: 5, Alpha: "core"}, 48)
 				u = append(u, shardUnits(DFSArg{Kind: "keyvalue", Writers: 3, Depth: 4, Alpha: "tiny", Dup: true}, 32)...)
 				u = append(u, shardUnits(DFSArg{Kind: "keyvalue", Writers: 1, Depth: 4, Alpha: "values"}, 16)...)
+				u = append(u, shardUnits(DFSArg{Kind: "keyvalue", Writers: 2, Depth: 5, Alpha: "tiny", Restart: true}, 32)...)
 				return u
 			}
 			u := shardUnits(DFSArg{Kind: "keyvalue", Writers: 2, Depth: 5, Alpha: "tiny", Dup: true}, 32)
 			u = append(u, shardUnits(DFSArg{Kind: "keyvalue", Writers: 2, Depth: 4, Alpha: "core"}, 32)...)
 			u = append(u, shardUnits(DFSArg{Kind: "keyvalue", Writers: 3, Depth: 3, Alpha: "tiny"}, 16)...)
 			u = append(u, shardUnits(DFSArg{Kind: "keyvalue", Writers: 1, Depth: 3, Alpha: "values"}, 8)...)
+			u = append(u, shardUnits(DFSArg{Kind: "keyvalue", Writers: 2, Depth: 4, Alpha: "tiny", Restart: true}, 16)...)
 			return u
 		},
 		Budget: func(tier string) float64 {
 			if tier == "thorough" {
 				return 1500
 			}
-			return 150
+			return 300
 		},
 		RunUnit: func(c *explore.Ctx) {
 			runWritersDFS(c, "C06", func(a DFSArg) []WOp { return KVAlphabet(a.Alpha) }, func(w *Writers, a DFSArg) {
